@@ -42,6 +42,10 @@ fn gen(t: Tier, seed: u64, emit: &mut dyn FnMut(Case)) {
             }
         });
     }
+    // every other length up to 300 with one pattern (a length check computed in a narrower integer wraps somewhere here)
+    for n in 6..=300usize {
+        emit(Case::BadLen { idx: bsv::fixture::bg(n, 16, 9, seed), s: n % 16 });
+    }
     for n in [4usize, 5, 6, 16, 17] {
         if t.thorough() && n == 4 {
             all_seqs(4, 16, &mut |v| emit(Case::BadLen { idx: v.to_vec(), s: 13 }));
